@@ -652,3 +652,28 @@ Proof. apply uri_rfc_resolve_trailing_gen. Qed.
 
 Lemma uri_dots_table seg rest : uri_dots (seg ++ rest) (len seg) = UOk (uri_dotkind_raw seg).
 Proof. rewrite uri_dots_is, uri_dots_p_table. reflexivity. Qed.
+
+(* ---- the largest value an option header can carry: 269 + 65535 = 65804 bytes ---- *)
+Lemma uri_OPT_MAX_is : uri_OPT_MAX = 269 + 65535 /\ uri_OPT_MAX = 65804.
+Proof. split; reflexivity. Qed.
+
+(* write_option / make_decoded_option on a well-formed segment that decodes to [v]:
+   more than 65804 bytes: refused, nothing written, whatever the buffer size;
+   at most 65804 bytes and room for header + value: exactly opt_enc 0 v is written *)
+Lemma uri_write_opt_length_bound seg rest v st :
+  uri_pct_decode seg = Some v ->
+  (65804 < len v -> uri_write_opt uri_K (seg ++ rest) (len seg) st = UOk st) /\
+  (len v <= 65804 -> len (opt_enc 0 v) <= uw_rem st ->
+   uri_write_opt uri_K (seg ++ rest) (len seg) st =
+   UOk {| uw_ropts := opt_enc 0 v :: uw_ropts st; uw_rem := uw_rem st - len (opt_enc 0 v) |}).
+Proof.
+  intros Ed. rewrite uri_write_opt_ok. split.
+  - intros Hbig. unfold uri_Hwrite. rewrite Ed.
+    destruct (uw_rem st =? 0); [reflexivity|].
+    unfold uri_OPT_MAX. destruct (65804 <? len v) eqn:E; [reflexivity|lia].
+  - intros Hle Hroom. rewrite (uri_Hwrite_push seg v st Ed); [reflexivity|exact Hle|exact Hroom].
+Qed.
+
+(* why: the 16-bit extended length of a 65805-byte value would be that of a 269-byte value *)
+Lemma uri_opt_hdr_wraps_above_max : opt_hdr 0 65805 = opt_hdr 0 269 /\ opt_hdr 0 65804 = [14; 255; 255].
+Proof. split; reflexivity. Qed.
